@@ -27,5 +27,5 @@ MANIFEST = {
              "early handle reports ZeroRttRejected, that fresh streams reusing the early ids deliver exactly their own bytes while the "
              "stale handles are used and dropped, and the C18 wake-up invariants throughout (this found and fixed c61f15e)."),
     "note": ("Trusted: Coq kernel + vm_compute; hand-written models Model/ZeroRtt.v + Model/FlowSend.v (sampled agreement); hook zero_rtt.rs; "
-             "python driver. No axioms. Partial: see C17_rejected_is_fresh_full in Props/C17.v."),
+             "python driver. No axioms. Partial: see C17_rejected_is_fresh_full and C17_retry_resends_everything_full in Props/C17.v; Retry (retransmit_all_for_0rtt) is modelled as op 21, checked by the FIN ledger and by before/after-fix vm_compute witnesses."),
 }
